@@ -151,6 +151,7 @@ class SubjectAnalysis:
             self.no_counter = CNT not in self.fields
             self.notify_rules(S, short, fns)
             self.subscribe_rules(S, short, fns)
+            self.counter_writers(S, short, fns)
             self.unsubscribe_rules(S, short, fns)
         self.observer_rules()
         self.subscription_rules()
@@ -388,6 +389,41 @@ class SubjectAnalysis:
                 if any(x == cnt0 for x in ids): self.add('SUB.6', True, inst, ins[0].site, key='SUB.6|id-value')
                 elif ids: self.add('SUB.6', False, inst, ins[0].site, f'stored {ids[-1]}, expected the value of the counter before its increment', key='SUB.6|id-value')
                 else: self.add('SUB.6', None, inst, ins[0].site, 'the id stored with the observer was not followed')
+
+    def counter_writers(self, S, short, fns):
+        """who may write the id counter: besides its initialisation, only increments — wherever they are (a reset or any other
+        assignment hands out an id a stale handle or a running round may still hold)"""
+        if getattr(self, 'no_counter', False): return
+        sub = fns.get('subscribe')
+        for g in self.facts.fns:
+            if g.d.get('classfull') != S or g.d.get('ctor') or g.d.get('lambda'): continue
+            for n in g.nodes():
+                tgt = None; grows = None
+                if n.k == 'binop' and n.op in ('=', '+=', '-=', '*=', '/=', '|=', '&=', '%=') and n.n('lhs') is not None and n.n('lhs').k == 'member' and n.n('lhs').name == CNT:
+                    tgt = n
+                    if n.op == '+=':
+                        c = n.n('rhs'); cv = c.d.get('const', c.d.get('v')) if c is not None else None
+                        grows = True if isinstance(cv, int) and cv > 0 else None
+                    elif n.op == '=':
+                        r = n.n('rhs')
+                        while r is not None and r.k in ('cast', 'paren') and r.n('sub') is not None: r = r.n('sub')
+                        if r is not None and r.k == 'binop' and r.op == '+' and any(x is not None and x.k == 'member' and x.name == CNT for x in (r.n('lhs'), r.n('rhs'))):
+                            o = r.n('rhs') if (r.n('lhs') is not None and r.n('lhs').k == 'member' and r.n('lhs').name == CNT) else r.n('lhs')
+                            cv = o.d.get('const', o.d.get('v')) if o is not None else None
+                            grows = True if isinstance(cv, int) and cv > 0 else None
+                        elif r is not None and (r.d.get('const') is not None or r.k in ('int', 'bool')): grows = False
+                        else: grows = None
+                    else: grows = False
+                elif n.k == 'unop' and n.op in ('++', '--') and n.n('sub') is not None and n.n('sub').k == 'member' and n.n('sub').name == CNT:
+                    tgt = n; grows = n.op == '++'
+                if tgt is None: continue
+                if sub is not None and g.name == sub.name and grows is True: continue          # judged by SUB.6|fresh-id
+                inst = f'{short}: the id counter only grows ({g.name.split("::")[-1]}: `{tgt.text()[:40]}`)'
+                if grows is True: self.add('SUB.6', True, inst, tgt.shortloc(), key='SUB.6|counter-writers')
+                elif grows is False:
+                    self.add('SUB.6', False, inst, tgt.shortloc(), f'{g.name.split("::")[-1]}() sets the id counter back (`{tgt.text()[:40]}`): the next subscription receives an id that was handed out before — a stale Subscription handle becomes valid again and '
+                             'unsubscribes the new observer, and a notify round that still holds the old id in its snapshot treats the removed observer as active', key='SUB.6|counter-writers')
+                else: self.add('SUB.6', None, inst, tgt.shortloc(), 'the value written to the id counter is not followed')
 
     def unsubscribe_rules(self, S, short, fns):
         f = fns['unsubscribe']
